@@ -1,33 +1,221 @@
 """C14 — Bycycle objects reproduce the functional API and hold no stale state.  Model/Objects.v."""
 import copy
+import random as _random
 import numpy as np
-from harness import coqio, gen
+from harness import coqio, gen, pipeline
 from harness.core import exc_kind
 
 PROP = 'C14'
 PROPS_FILE = 'Props/C14.v'
-COQ_HEADER = ('From Coq Require Import List ZArith NArith String. Import ListNotations.\n'
-              'From ByC Require Import Base.Result Harness.Compare Model.Objects.\nOpen Scope string_scope.')
-COQ_RUNNER = 'bad_history'
-COQ_TYPES = ('settings * list op', 'result obs')
-SHARD = 100
-RULE = ('random histories (length <= 8 quick, <= 20 thorough) of fit / recompute_edges / load / threshold edit / burst-option '
-        'edit / centre change on one real Bycycle object, both burst methods, thresholds given in long or shorthand form; after '
-        'the history the object\'s stored dictionaries are compared with the model, and after every fit df_features is compared '
-        'with compute_features on deep copies of the intended settings and with a freshly constructed object; after every '
-        'recompute_edges with the functional recomputation at reduced thresholds; attribute access with the columns. '
-        'non-trivial = a history with >= 2 fits and >= 1 edit in between')
-ASSUMPTIONS = ['recompute_edges is only applied to consistency-method objects (the method is documented for them only)']
+_HEADER = ('From Coq Require Import List ZArith NArith String. Import ListNotations.\n'
+           'From ByC Require Import Base.Result Harness.Compare Model.Objects.\nOpen Scope string_scope.')
+COQ_STREAMS = {
+    'object': (_HEADER, 'bad_history', ('cargs * list op', 'result obs'), 100),
+    'group': (_HEADER, 'bad_group_history', ('cargs * list gop', 'result gobs'), 100),
+}
+COQ_RUNNER = 'bad_history / bad_group_history'
+RULE = ('(a) random histories (length <= 8 quick, <= 20 thorough) of fit / recompute_edges(None | 0 | r) / load / threshold item edit / '
+        'burst-option item edit / attribute assignments (center_extrema, thresholds = {...}, burst_method together with its '
+        'dictionaries, find_extrema_kwargs, return_samples) on one real Bycycle object, both burst methods; constructor called '
+        'with every argument optional (Bycycle() with no argument, thresholds=None for both methods, partial threshold '
+        'dictionaries, long and shorthand names mixed key by key); signals drawn from the run\'s seed. After every fit df_features '
+        'is compared with compute_features on deep copies of the intended settings (arguments that were never given are not passed '
+        'to it either) and with a freshly constructed object; after every recompute_edges with the functional recomputation at '
+        'reduced thresholds; after every load with the loaded table; after every operation that replaces df_features attribute '
+        'access is compared with the column for ALL columns; reductions are drawn inside the valid range, so no history is '
+        'discarded; after the history the stored settings are compared with the model. '
+        '(b) random histories on one real BycycleGroup: fit of a 2-D array (axis 0 / None) or 3-D array (axis (0,1) / 0 / 1), re-fit '
+        'with another shape, threshold / burst-option item edits, recompute_edges; after EVERY operation models[i].df_features '
+        '= df_features[i] and models[i].sig = sigs[i] by value for every position (and equal counts); after a fit comparison '
+        'with a fresh group; after recompute_edges comparison with the functional recomputation of every table; object identity '
+        'of the mirrored tables and the settings held by the models go into the model comparison only. '
+        'non-trivial = an object history with >= 2 fits and >= 1 edit in between, or a group history with a re-fit or a recomputation')
+ASSUMPTIONS = ['recompute_edges is only applied to consistency-method objects holding a table produced by consistency burst '
+               'detection (the method is documented for them only); for groups therefore only after axis=0 (2-D) / axis=(0,1) (3-D) fits',
+               'attribute assignments replace a dictionary by one with long key names (shorthand is a constructor feature); a change '
+               'of burst_method is followed immediately by matching thresholds / burst_kwargs',
+               'group edits are item assignments on the group\'s dictionaries (shared with the models); replacing a dictionary object '
+               'of a fitted group is not exercised',
+               'a history whose fit fails in the same way as compute_features on that signal (degenerate signal, C01 domain) is skipped']
 AMP_THRESHES = [(1, 2), (0.5, 1.5), (0.8, 1.2)]
+FEKS = [None, {'boundary': 1}, {'boundary': 5}, {'filter_kwargs': {'n_cycles': 4}},
+        {'boundary': 3, 'filter_kwargs': {'n_cycles': 2}}, {'pad': True, 'boundary': 2}]
+FEK_DEFAULT = {'filter_kwargs': {'n_cycles': 3}}
+CYC_NAMES = ['amp_fraction', 'amp_consistency', 'period_consistency', 'monotonicity']
+CYC_DEF = {k: int(round(v * 1000)) if k != 'min_n_cycles' else v for k, v in pipeline.CYC_DEFAULTS.items()}
+AMP_DEF = {'burst_fraction_threshold': 1000, 'min_n_cycles': 3}
 SIGS = {}
 
 
-def _sig(k):
-    if k not in SIGS:
-        import random
-        s = gen.signal(random.Random(500 + k), kind=['sparse', 'bursty', 'sum', 'sine'][k % 4], max_len=420)
-        SIGS[k] = (s['sig'], s['fs'], tuple(s['f_range']))
-    return SIGS[k]
+def _sig(seed, k):
+    if (seed, k) not in SIGS:
+        s = gen.signal(_random.Random(seed * 16 + k), kind=['sparse', 'bursty', 'sum', 'sine'][k % 4], max_len=420)
+        SIGS[(seed, k)] = (s['sig'], s['fs'], tuple(s['f_range']))
+    return SIGS[(seed, k)]
+
+
+def _arr(seed, k, n0, n1):
+    """n0 (x n1) distinct rows derived from one generated signal (2-D when n1 is None)."""
+    key = (seed, k, n0, n1)
+    if key not in SIGS:
+        base, fs, fr = _sig(seed, k)
+        nrng = np.random.default_rng(seed * 16 + k)
+        rows = [np.roll(base, 11 * p) * (1 + 0.1 * p) + 0.01 * nrng.standard_normal(len(base)) for p in range(n0 * (n1 or 1))]
+        a = np.array(rows)
+        SIGS[key] = (a if n1 is None else a.reshape(n0, n1, -1), fs, fr)
+    return SIGS[key]
+
+
+# ---------------------------------------------------------------------------------------------------
+# generators
+
+def _gen_thr_cycles(rng, partial):
+    mixed = rng.random() < 0.5
+    short_all = rng.random() < 0.4
+    thr = {}
+    for nm in CYC_NAMES:
+        if partial and rng.random() < 0.45:
+            continue
+        short = (rng.random() < 0.5) if mixed else short_all
+        thr[nm if short else nm + '_threshold'] = rng.choice([0, 200, 300, 400, 500, 700])
+    if not partial or rng.random() < 0.6:
+        thr['min_n_cycles'] = rng.choice([1, 2, 3])
+    return thr
+
+
+def _gen_thr_amp(rng, partial):
+    thr = {}
+    if not partial or rng.random() < 0.6:
+        thr['burst_fraction' if rng.random() < 0.4 else 'burst_fraction_threshold'] = rng.choice([200, 500, 1000])
+    if rng.random() < 0.7:
+        thr['min_n_cycles'] = rng.choice([1, 2, 3, 4])
+    return thr
+
+
+def _gen_bk(rng):
+    bk = {}
+    if rng.random() < 0.6:
+        bk['amp_threshes'] = rng.randrange(len(AMP_THRESHES))
+    if rng.random() < 0.3:
+        bk['min_n_cycles'] = rng.choice([1, 2, 3, 5])
+    return bk
+
+
+def _gen_args(rng):
+    """Constructor arguments; a missing key = the argument is not passed."""
+    if rng.random() < 0.04:
+        return {}                                            # Bycycle()
+    a = {}
+    amp = rng.random() < 0.5
+    if amp or rng.random() < 0.7:
+        a['amp'] = amp
+    if rng.random() < 0.8:
+        a['center'] = rng.random() < 0.6
+    r = rng.random()
+    if r < 0.18:
+        pass                                                 # thresholds=None -> documented defaults
+    else:
+        partial = r < 0.5
+        a['thr'] = _gen_thr_amp(rng, partial) if amp else _gen_thr_cycles(rng, partial)
+    if amp and rng.random() < 0.7:
+        a['bk'] = _gen_bk(rng)
+    if rng.random() < 0.7:
+        a['fek'] = rng.randrange(len(FEKS))
+    if rng.random() < 0.6:
+        a['rs'] = rng.random() < 0.8
+    return a
+
+
+def _expand(d):
+    out = {}
+    for k, v in d.items():
+        out[k if (k.endswith('_threshold') or k == 'min_n_cycles') else k + '_threshold'] = v
+    return out
+
+
+def _valid_reduction(rng, thr):
+    """A reduction (thousandths) that keeps every stored *_threshold inside [0, 1]."""
+    vals = [v for k, v in thr.items() if k.endswith('threshold')]
+    top = min(vals) if vals else 300
+    r = rng.choice([x for x in (0, 0, 50, 100, 200, top) if x <= top])
+    return ['recompute', r, rng.choice(['none', 'zero']) if r == 0 else 'val']
+
+
+def _gen_object_case(rng, maxlen):
+    args = _gen_args(rng)
+    amp = args.get('amp', False)
+    thr = _expand(args['thr']) if 'thr' in args else dict(AMP_DEF if amp else CYC_DEF)      # the generator's own bookkeeping
+    ops = []
+    df_cycles = False          # the object currently holds a table produced by a consistency-method fit
+    fitted = False
+    for _ in range(rng.randint(2, maxlen)):
+        r = rng.random()
+        if r < 0.33 or not ops:
+            ops.append(['fit', rng.randrange(4)])
+            fitted, df_cycles = True, not amp
+        elif r < 0.47 and df_cycles and not amp:
+            ops.append(_valid_reduction(rng, thr))
+        elif r < 0.66:
+            if amp:
+                k = rng.choice(['burst_fraction_threshold', 'min_n_cycles'])
+                v = rng.choice([200, 500, 1000]) if k.endswith('threshold') else rng.choice([1, 2, 3, 4, 6])
+            else:
+                k = rng.choice([nm + '_threshold' for nm in CYC_NAMES] + ['min_n_cycles'])
+                v = rng.choice([0, 300, 500, 800]) if k.endswith('threshold') else rng.choice([1, 2, 3, 4])
+            ops.append(['edit_thr', k, v])
+            thr[k] = v
+        elif r < 0.72 and amp:
+            k = rng.choice(['amp_threshes', 'min_n_cycles'])
+            ops.append(['edit_bk', k, rng.randrange(len(AMP_THRESHES)) if k == 'amp_threshes' else rng.choice([1, 2, 4])])
+        elif r < 0.78:
+            ops.append(['center', rng.random() < 0.5])
+        elif r < 0.83:
+            thr = _expand(_gen_thr_amp(rng, rng.random() < 0.4) if amp else _gen_thr_cycles(rng, rng.random() < 0.4))
+            ops.append(['set_thr', dict(thr)])
+        elif r < 0.87:
+            amp = not amp
+            thr = _expand(_gen_thr_amp(rng, False) if amp else _gen_thr_cycles(rng, rng.random() < 0.3))
+            ops.append(['set_method', amp, dict(thr), _gen_bk(rng) if amp else {}])
+        elif r < 0.91:
+            ops.append(['set_fek', rng.randrange(len(FEKS))])
+        elif r < 0.94:
+            ops.append(['set_rs', rng.random() < 0.7])
+        elif fitted:
+            ops.append(['load', rng.randrange(4)])
+    ops.append(['fit', rng.randrange(4)])
+    return {'kind': 'history/' + ('amp' if args.get('amp', False) else 'cycles'), 'args': args, 'ops': ops,
+            'sigseed': rng.randrange(10 ** 6)}
+
+
+def _gen_group_case(rng, maxlen):
+    args = _gen_args(rng)
+    amp = args.get('amp', False)
+    thr = _expand(args['thr']) if 'thr' in args else dict(AMP_DEF if amp else CYC_DEF)
+    gops = []
+    rc_ok = False
+    for step in range(rng.randint(2, maxlen)):
+        r = rng.random()
+        if r < 0.4 or not gops:
+            sh = rng.choice(['rows', 'rows', 'flat', 'g3', 'g3ax0', 'g3ax1'])
+            n0 = rng.choice([1, 2, 3])
+            n1 = rng.choice([1, 2]) if sh.startswith('g3') else None
+            gops.append(['gfit', rng.randrange(3), sh, n0, n1])
+            rc_ok = (not amp) and sh in ('rows', 'g3')
+        elif r < 0.65 and rc_ok:
+            gops.append(['g' + x if i == 0 else x for i, x in enumerate(_valid_reduction(rng, thr))])
+        elif r < 0.9 or not amp:
+            if amp:
+                k = rng.choice(['burst_fraction_threshold', 'min_n_cycles'])
+                v = rng.choice([200, 500, 1000]) if k.endswith('threshold') else rng.choice([1, 2, 3, 4])
+            else:
+                k = rng.choice([nm + '_threshold' for nm in CYC_NAMES] + ['min_n_cycles'])
+                v = rng.choice([0, 300, 500, 800]) if k.endswith('threshold') else rng.choice([1, 2, 3])
+            gops.append(['gedit_thr', k, v])
+            thr[k] = v
+        else:
+            k = rng.choice(['amp_threshes', 'min_n_cycles'])
+            gops.append(['gedit_bk', k, rng.randrange(len(AMP_THRESHES)) if k == 'amp_threshes' else rng.choice([1, 2, 4])])
+    return {'kind': 'group/' + ('amp' if amp else 'cycles'), 'args': args, 'gops': gops, 'sigseed': rng.randrange(10 ** 6)}
 
 
 def cases(rng, tier):
@@ -35,54 +223,18 @@ def cases(rng, tier):
     n = 120 if tier == 'quick' else 1200
     maxlen = 8 if tier == 'quick' else 20
     for _ in range(n):
-        amp = rng.random() < 0.5
-        short = rng.random() < 0.4
-        if amp:
-            thr = {('burst_fraction' if short else 'burst_fraction_threshold'): rng.choice([200, 500, 1000])}
-            if rng.random() < 0.7:
-                thr['min_n_cycles'] = rng.choice([1, 2, 3, 4])
-            bk = None
-            if rng.random() < 0.7:
-                bk = {}
-                if rng.random() < 0.6:
-                    bk['amp_threshes'] = rng.randrange(len(AMP_THRESHES))
-                if rng.random() < 0.3:
-                    bk['min_n_cycles'] = rng.choice([1, 2, 3, 5])
-        else:
-            names = ['amp_fraction', 'amp_consistency', 'period_consistency', 'monotonicity']
-            thr = {(nm if short else nm + '_threshold'): rng.choice([0, 200, 400, 500, 700]) for nm in names}
-            thr['min_n_cycles'] = rng.choice([1, 2, 3])
-            bk = None
-        ops = []
-        fitted = False
-        for _ in range(rng.randint(2, maxlen)):
-            r = rng.random()
-            if r < 0.35 or not ops:
-                ops.append(['fit', rng.randrange(4)])
-                fitted = True
-            elif r < 0.5 and fitted and not amp:
-                ops.append(['recompute', rng.choice([0, 50, 100, 200])])
-            elif r < 0.75:
-                if amp:
-                    k = rng.choice(['burst_fraction_threshold', 'min_n_cycles'])
-                    v = rng.choice([200, 500, 1000]) if k.endswith('threshold') else rng.choice([1, 2, 3, 4, 6])
-                else:
-                    k = rng.choice(['amp_fraction_threshold', 'amp_consistency_threshold', 'period_consistency_threshold',
-                                    'monotonicity_threshold', 'min_n_cycles'])
-                    v = rng.choice([0, 300, 500, 800]) if k.endswith('threshold') else rng.choice([1, 2, 3, 4])
-                ops.append(['edit_thr', k, v])
-            elif r < 0.85 and amp:
-                k = rng.choice(['amp_threshes', 'min_n_cycles'])
-                ops.append(['edit_bk', k, rng.randrange(len(AMP_THRESHES)) if k == 'amp_threshes' else rng.choice([1, 2, 4])])
-            elif r < 0.93:
-                ops.append(['center', rng.random() < 0.5])
-            elif fitted:
-                ops.append(['load', rng.randrange(4)])
-        ops.append(['fit', rng.randrange(4)])
-        out.append({'kind': 'history/' + ('amp' if amp else 'cycles'), 'amp': amp, 'center': rng.random() < 0.6, 'thr': thr, 'bk': bk,
-                    'fek': rng.choice([None, 1, 5]), 'rs': rng.random() < 0.8, 'ops': ops})
+        out.append(_gen_object_case(rng, maxlen))
+    for _ in range(45 if tier == 'quick' else 400):
+        out.append(_gen_group_case(rng, 7 if tier == 'quick' else 14))
     return out
 
+
+def stream_of(c):
+    return 'group' if 'gops' in c else 'object'
+
+
+# ---------------------------------------------------------------------------------------------------
+# encodings
 
 def _thr_py(d):
     return {k: (v / 1000.0 if k != 'min_n_cycles' else v) for k, v in d.items()}
@@ -94,19 +246,9 @@ def _bk_py(d):
     return {k: (AMP_THRESHES[v] if k == 'amp_threshes' else v) for k, v in d.items()}
 
 
-def _fek_py(f):
-    return None if f is None else {'boundary': f}
-
-
-def _expand(d):
-    out = {}
-    for k, v in d.items():
-        out[k if (k.endswith('_threshold') or k == 'min_n_cycles') else k + '_threshold'] = v
-    return out
-
-
 def _same(a, b):
-    if list(a.columns) != list(b.columns) or len(a) != len(b):
+    """Equal tables: same rows, same column set (not order), same values."""
+    if a is None or b is None or set(a.columns) != set(b.columns) or len(a) != len(b):
         return False
     for col in a.columns:
         x, y = np.asarray(a[col]), np.asarray(b[col])
@@ -118,13 +260,31 @@ def _same(a, b):
     return True
 
 
+def _attr_problem(bm):
+    """Attribute access returns the table's columns (all of them, on the table the object holds NOW)."""
+    df = bm.df_features
+    for col in df.columns:
+        try:
+            got = getattr(bm, col)
+        except Exception as e:
+            return 'attribute access %r raised %s' % (col, type(e).__name__)
+        x, y = np.asarray(got), np.asarray(df[col].values)
+        ok = (np.array_equal(x.astype(float), y.astype(float), equal_nan=True) if (x.dtype.kind == 'f' or y.dtype.kind == 'f')
+              else np.array_equal(x, y))
+        if not ok:
+            return 'attribute access %r does not return the column of the current table' % col
+    return None
+
+
 def _enc_thr(d):
+    if not isinstance(d, dict):
+        return {'<not a dict>': 1}
     return {k: (int(round(v * 1000)) if k != 'min_n_cycles' else int(v)) for k, v in d.items() if isinstance(v, (int, float))}
 
 
 def _enc_bk(d):
     out = {}
-    for k, v in d.items():
+    for k, v in (d or {}).items():
         if k == 'amp_threshes':
             out[k] = AMP_THRESHES.index(tuple(v)) if tuple(v) in AMP_THRESHES else 99
         elif k == 'min_n_cycles':
@@ -134,123 +294,371 @@ def _enc_bk(d):
     return out
 
 
+def _enc_fek(d):
+    if d == FEK_DEFAULT:
+        return 0
+    for i, f in enumerate(FEKS):
+        if f is not None and d == f:
+            return i
+    return 99
+
+
+def _obs(b):
+    return {'thr': _enc_thr(b.thresholds), 'bk': _enc_bk(b.burst_kwargs), 'center': b.center_extrema == 'peak',
+            'amp': b.burst_method == 'amp', 'fek': _enc_fek(b.find_extrema_kwargs), 'rs': bool(b.return_samples)}
+
+
+class _Want:
+    """The harness's own record of the settings the user intends (never read back from the object)."""
+
+    def __init__(self, args):
+        self.given = {k: True for k in args}
+        self.amp = args.get('amp', False)
+        self.center = args.get('center', True)
+        self.thr = _expand(_thr_py(args['thr'])) if 'thr' in args else None      # None: never given, never edited
+        self.bk = dict(_bk_py(args['bk'])) if 'bk' in args else None
+        self.fek = args.get('fek')                                               # index or None (not given)
+        self.rs = args.get('rs', True)
+        self.user_thr = dict(self.thr or {})          # keys the USER has set (given or edited), for the stored-settings clause
+        self.user_bk = dict(self.bk or {})
+
+    def thr_full(self, keep=True):
+        """Intended thresholds when an edit hits a dictionary the user never passed: documented defaults + edits."""
+        if self.thr is None:
+            d = _thr_py(AMP_DEF if self.amp else CYC_DEF)
+            if not keep:
+                return d
+            self.thr = d
+        return self.thr
+
+    def kwargs(self, for_object):
+        """Keyword arguments for compute_features (threshold_kwargs) / Bycycle (thresholds): only what was given or set."""
+        kw = {}
+        if 'center' in self.given:
+            kw['center_extrema'] = 'peak' if self.center else 'trough'
+        if 'amp' in self.given:
+            kw['burst_method'] = 'amp' if self.amp else 'cycles'
+        if self.bk is not None and self.amp:
+            kw['burst_kwargs'] = copy.deepcopy(self.bk)
+        if self.thr is not None:
+            kw['thresholds' if for_object else 'threshold_kwargs'] = copy.deepcopy(self.thr)
+        if self.fek is not None and FEKS[self.fek] is not None:
+            kw['find_extrema_kwargs'] = copy.deepcopy(FEKS[self.fek])
+        if 'rs' in self.given:
+            kw['return_samples'] = self.rs
+        return kw
+
+    def reduced(self, r):
+        return {k: (v - r if k.endswith('threshold') else v) for k, v in self.thr_full(keep=False).items()}
+
+
+def _ctor_kwargs(args):
+    kw = {}
+    if 'center' in args:
+        kw['center_extrema'] = 'peak' if args['center'] else 'trough'
+    if 'amp' in args:
+        kw['burst_method'] = 'amp' if args['amp'] else 'cycles'
+    if 'bk' in args:
+        kw['burst_kwargs'] = _bk_py(args['bk'])
+    if 'thr' in args:
+        kw['thresholds'] = _thr_py(args['thr'])
+    if 'fek' in args:
+        kw['find_extrema_kwargs'] = copy.deepcopy(FEKS[args['fek']])
+    if 'rs' in args:
+        kw['return_samples'] = args['rs']
+    return kw
+
+
+# ---------------------------------------------------------------------------------------------------
+# running real objects
+
+def _reference_fails_too(sig, fs, fr, want, kind):
+    from bycycle.features import compute_features
+    try:
+        compute_features(sig, fs, fr, **want.kwargs(False))
+    except Exception as e2:
+        return exc_kind(e2) == kind
+    return False
+
+
 def run_impl(c):
+    import warnings
+    warnings.filterwarnings('ignore')
+    if 'gops' in c:
+        return _run_group(c)
     from bycycle import Bycycle
     from bycycle.features import compute_features
     from bycycle.burst import recompute_edges
-    method = 'amp' if c['amp'] else 'cycles'
-    center = 'peak' if c['center'] else 'trough'
-    thr_obj, bk_obj = _thr_py(c['thr']), _bk_py(c['bk'])
+    args = c['args']
     try:
-        bm = Bycycle(center_extrema=center, burst_method=method, burst_kwargs=bk_obj, thresholds=thr_obj,
-                     find_extrema_kwargs=_fek_py(c['fek']), return_samples=c['rs'])
+        bm = Bycycle(**_ctor_kwargs(args))
     except Exception as e:
-        return {'err': exc_kind(e), 'msg': 'constructor: ' + str(e)[:120]}
-    # the harness's own record of what the user intends
-    want_thr = _expand(_thr_py(c['thr']))
-    want_bk = dict(_bk_py(c['bk']) or {})
-    want_center = center
+        return {'err': exc_kind(e), 'msg': 'constructor: ' + str(e)[:120], 'problems': []}
+    want = _Want(args)
     problems = []
     prev_df = None
+    op = None
     try:
         for op in c['ops']:
             if op[0] == 'fit':
-                sig, fs, fr = _sig(op[1])
-                bm.fit(sig, fs, fr)
-                ref = compute_features(sig, fs, fr, center_extrema=want_center, burst_method=method,
-                                       burst_kwargs=copy.deepcopy(want_bk) if c['amp'] else None, threshold_kwargs=copy.deepcopy(want_thr),
-                                       find_extrema_kwargs=copy.deepcopy(_fek_py(c['fek'])) if c['fek'] is not None else None,
-                                       return_samples=c['rs'])
+                sig, fs, fr = _sig(c['sigseed'], op[1])
+                try:
+                    bm.fit(sig, fs, fr)
+                except Exception as e:
+                    if _reference_fails_too(sig, fs, fr, want, exc_kind(e)):
+                        return {'skip': 'fit and compute_features both raise %s on this signal' % exc_kind(e)}
+                    raise
+                ref = compute_features(sig, fs, fr, **want.kwargs(False))
                 if not _same(bm.df_features, ref):
                     problems.append('fit: df_features differs from compute_features with the current settings')
-                fresh = Bycycle(center_extrema=want_center, burst_method=method, burst_kwargs=copy.deepcopy(want_bk) if c['amp'] else None,
-                                thresholds=copy.deepcopy(want_thr), find_extrema_kwargs=copy.deepcopy(_fek_py(c['fek'])) if c['fek'] is not None else None,
-                                return_samples=c['rs'])
+                fresh = Bycycle(**want.kwargs(True))
                 fresh.fit(sig, fs, fr)
                 if not _same(bm.df_features, fresh.df_features):
                     problems.append('fit: df_features differs from a freshly constructed object with the current settings')
-                if not np.array_equal(bm.period, bm.df_features['period'].values):
-                    problems.append('attribute access does not return the column')
                 prev_df = bm.df_features
             elif op[0] == 'recompute':
                 before = bm.df_features.copy()
                 r = op[1] / 1000.0
-                bm.recompute_edges(r if op[1] else None)
-                red = {k: (v - r if k.endswith('threshold') else v) for k, v in want_thr.items()}
-                if any(not (0 <= v <= 1) for k, v in red.items() if k.endswith('threshold')):
-                    problems.append('harness: reduction out of range')
-                ref = recompute_edges(before, red)
+                bm.recompute_edges({'none': None, 'zero': 0, 'val': r}[op[2]])
+                ref = recompute_edges(before, want.reduced(r))
                 if not _same(bm.df_features, ref):
                     problems.append('recompute_edges: differs from the functional recomputation at reduced thresholds')
             elif op[0] == 'edit_thr':
-                bm.thresholds[op[1]] = op[2] / 1000.0 if op[1] != 'min_n_cycles' else op[2]
-                want_thr[op[1]] = op[2] / 1000.0 if op[1] != 'min_n_cycles' else op[2]
+                v = op[2] / 1000.0 if op[1] != 'min_n_cycles' else op[2]
+                bm.thresholds[op[1]] = v
+                want.thr_full()[op[1]] = v
+                want.user_thr[op[1]] = v
             elif op[0] == 'edit_bk':
-                bm.burst_kwargs[op[1]] = AMP_THRESHES[op[2]] if op[1] == 'amp_threshes' else op[2]
-                want_bk[op[1]] = AMP_THRESHES[op[2]] if op[1] == 'amp_threshes' else op[2]
+                v = AMP_THRESHES[op[2]] if op[1] == 'amp_threshes' else op[2]
+                bm.burst_kwargs[op[1]] = v
+                if want.bk is None:
+                    want.bk = {}
+                want.bk[op[1]] = v
+                want.user_bk[op[1]] = v
             elif op[0] == 'center':
-                want_center = 'peak' if op[1] else 'trough'
-                bm.center_extrema = want_center
+                want.center = op[1]
+                want.given['center'] = True
+                bm.center_extrema = 'peak' if op[1] else 'trough'
+            elif op[0] == 'set_thr':
+                bm.thresholds = _thr_py(op[1])
+                want.thr = _thr_py(op[1])
+                want.user_thr = dict(want.thr)
+            elif op[0] == 'set_method':
+                bm.burst_method = 'amp' if op[1] else 'cycles'
+                bm.thresholds = _thr_py(op[2])
+                bm.burst_kwargs = _bk_py(op[3])
+                want.amp = op[1]
+                want.given['amp'] = True
+                want.thr = _thr_py(op[2])
+                want.user_thr = dict(want.thr)
+                want.bk = dict(_bk_py(op[3]))
+                want.user_bk = dict(want.bk)
+            elif op[0] == 'set_fek':
+                bm.find_extrema_kwargs = copy.deepcopy(FEKS[op[1]]) if FEKS[op[1]] is not None else copy.deepcopy(FEK_DEFAULT)
+                want.fek = op[1]
+            elif op[0] == 'set_rs':
+                bm.return_samples = op[1]
+                want.rs = op[1]
+                want.given['rs'] = True
             elif op[0] == 'load':
-                sig, fs, fr = _sig(op[1])
-                bm.load(prev_df if prev_df is not None else bm.df_features, sig, fs, fr)
+                sig, fs, fr = _sig(c['sigseed'], op[1])
+                tbl = prev_df if prev_df is not None else bm.df_features
+                snapshot = tbl.copy()
+                bm.load(tbl, sig, fs, fr)
+                if not _same(bm.df_features, snapshot):
+                    problems.append('load: df_features is not the loaded table')
+                if not np.array_equal(bm.sig, sig):
+                    problems.append('load: sig is not the loaded signal')
+            if op[0] in ('fit', 'recompute', 'load'):
+                p = _attr_problem(bm)
+                if p:
+                    problems.append('after %s: %s' % (op[0], p))
     except Exception as e:
-        return {'err': exc_kind(e), 'msg': '%s: %s' % (op, str(e)[:140])}
-    return {'thr': _enc_thr(bm.thresholds), 'bk': _enc_bk(bm.burst_kwargs), 'center': bm.center_extrema == 'peak',
-            'problems': problems[:3]}
+        return {'err': exc_kind(e), 'msg': '%s: %s' % (op, str(e)[:140]), 'problems': problems[:3]}
+    out = _obs(bm)
+    out['problems'] = problems[:3]
+    out['user_thr'] = _enc_thr(want.user_thr)
+    out['user_bk'] = _enc_bk(want.user_bk)
+    return out
 
 
-def _valid_reductions(c):
-    """A history is only meaningful if no recompute pushes a threshold below 0."""
-    thr = _expand(dict(c['thr']))
-    for op in c['ops']:
-        if op[0] == 'edit_thr':
-            thr[op[1]] = op[2]
-        if op[0] == 'recompute' and any(v - op[1] < 0 for k, v in thr.items() if k.endswith('threshold')):
-            return False
-    return True
+def _flat(x, three_d):
+    return [y for row in x for y in row] if three_d else list(x)
 
+
+def _mirror_problem(bg, arr, three_d):
+    try:
+        models, dfs, sigs = _flat(bg.models, three_d), _flat(bg.df_features, three_d), _flat(bg.sigs, three_d)
+    except Exception as e:
+        return 'models / df_features / sigs are not position-wise containers (%s)' % type(e).__name__
+    if not (len(models) == len(dfs) == len(sigs)):
+        return 'models (%d), df_features (%d) and sigs (%d) differ in size' % (len(models), len(dfs), len(sigs))
+    if three_d and not (len(bg.models) == len(bg.df_features) and all(len(a) == len(b) for a, b in zip(bg.models, bg.df_features))):
+        return 'models and df_features differ in shape'
+    for p, (m, d, s) in enumerate(zip(models, dfs, sigs)):
+        if not _same(m.df_features, d):
+            return 'models[%d].df_features differs from df_features[%d]' % (p, p)
+        if not np.array_equal(np.asarray(m.sig), np.asarray(s)):
+            return 'models[%d].sig differs from sigs[%d]' % (p, p)
+    return None
+
+
+AXES = {'rows': 0, 'flat': None, 'g3': (0, 1), 'g3ax0': 0, 'g3ax1': 1}
+
+
+def _run_group(c):
+    from bycycle import BycycleGroup
+    from bycycle.burst import recompute_edges
+    args = c['args']
+    try:
+        bg = BycycleGroup(**_ctor_kwargs(args))
+    except Exception as e:
+        return {'err': exc_kind(e), 'msg': 'constructor: ' + str(e)[:120], 'problems': []}
+    want = _Want(args)
+    problems = []
+    arr, three_d, arr_id = None, False, -1
+    op = None
+    try:
+        for op in c['gops']:
+            if op[0] == 'gfit':
+                arr, fs, fr = _arr(c['sigseed'], op[1], op[3], op[4])
+                arr_id, three_d = op[1], op[4] is not None
+                try:
+                    bg.fit(arr, fs, fr, axis=AXES[op[2]], n_jobs=1)
+                except Exception as e:
+                    flat = arr.reshape(-1, arr.shape[-1])
+                    if any(_reference_fails_too(row, fs, fr, want, exc_kind(e)) for row in list(flat) + [flat.flatten()]):
+                        return {'skip': 'group fit and compute_features both raise %s on this array' % exc_kind(e)}
+                    raise
+                fresh = BycycleGroup(**want.kwargs(True))
+                fresh.fit(arr, fs, fr, axis=AXES[op[2]], n_jobs=1)
+                a, b = _flat(bg.df_features, three_d), _flat(fresh.df_features, three_d)
+                if len(a) != len(b) or not all(_same(x, y) for x, y in zip(a, b)):
+                    problems.append('group fit: df_features differ from a freshly constructed group with the current settings')
+            elif op[0] == 'grecompute':
+                before = [d.copy() for d in _flat(bg.df_features, three_d)]
+                r = op[1] / 1000.0
+                bg.recompute_edges({'none': None, 'zero': 0, 'val': r}[op[2]])
+                after = _flat(bg.df_features, three_d)
+                red = want.reduced(r)
+                if len(after) != len(before) or not all(_same(x, recompute_edges(y, dict(red))) for x, y in zip(after, before)):
+                    problems.append('group recompute_edges: a table differs from the functional recomputation at reduced thresholds')
+            elif op[0] == 'gedit_thr':
+                v = op[2] / 1000.0 if op[1] != 'min_n_cycles' else op[2]
+                bg.thresholds[op[1]] = v
+                want.thr_full()[op[1]] = v
+                want.user_thr[op[1]] = v
+            elif op[0] == 'gedit_bk':
+                v = AMP_THRESHES[op[2]] if op[1] == 'amp_threshes' else op[2]
+                bg.burst_kwargs[op[1]] = v
+                if want.bk is None:
+                    want.bk = {}
+                want.bk[op[1]] = v
+                want.user_bk[op[1]] = v
+            if arr is not None:
+                p = _mirror_problem(bg, arr, three_d)
+                if p:
+                    problems.append('after %s: %s' % (op[0], p))
+    except Exception as e:
+        return {'err': exc_kind(e), 'msg': '%s: %s' % (op, str(e)[:140]), 'problems': problems[:3]}
+    out = _obs(bg)
+    out['problems'] = problems[:3]
+    out['user_thr'] = _enc_thr(want.user_thr)
+    out['user_bk'] = _enc_bk(want.user_bk)
+    # model comparison only: which signal every model holds, whether it holds the group's table OBJECT, and the group's settings
+    sig_ids, same_obj, current = [], [], []
+    if arr is not None:
+        models, dfs = _flat(bg.models, three_d), _flat(bg.df_features, three_d)
+        flat = arr.reshape(-1, arr.shape[-1])
+        for p, m in enumerate(models):
+            hit = [q for q in range(len(flat)) if np.array_equal(np.asarray(m.sig), flat[q])]
+            sig_ids.append(arr_id * 4096 + (p if p in hit else hit[0]) if hit else -1)
+            same_obj.append(p < len(dfs) and m.df_features is dfs[p])
+            current.append(_obs(m) == _obs(bg))
+    out['sig_ids'], out['same_obj'], out['current'] = sig_ids, same_obj, current
+    return out
+
+
+# ---------------------------------------------------------------------------------------------------
 
 def oracle(c, o):
-    if not _valid_reductions(c):
+    if 'skip' in o:
         return None
+    if o.get('problems'):
+        return o['problems'][0]
     if 'err' in o:
         return 'history raised %s (%s)' % (o['err'], o.get('msg'))
-    if o['problems']:
-        return o['problems'][0]
-    want_thr = _expand(dict(c['thr']))
-    want_bk = dict(c['bk'] or {})
-    for op in c['ops']:
-        if op[0] == 'edit_thr':
-            want_thr[op[1]] = op[2]
-        elif op[0] == 'edit_bk':
-            want_bk[op[1]] = op[2]
-    if o['thr'] != want_thr:
-        return 'stored thresholds %s differ from what the user set %s' % (o['thr'], want_thr)
-    if o['bk'] != want_bk:
-        return 'stored burst options %s differ from what the user set %s' % (o['bk'], want_bk)
+    # the stored dictionaries carry what the user set (keys the user never touched are the model comparison's business)
+    for k, v in o['user_thr'].items():
+        if o['thr'].get(k) != v:
+            return 'stored thresholds %s lost the user\'s setting %s = %s' % (o['thr'], k, v)
+    for k, v in o['user_bk'].items():
+        if o['bk'].get(k) != v:
+            return 'stored burst options %s lost the user\'s setting %s = %s' % (o['bk'], k, v)
     return None
 
 
 def nontrivial(c, o):
+    if 'thr' not in o:
+        return False
+    if 'gops' in c:
+        fits = [op for op in c['gops'] if op[0] == 'gfit']
+        return len(fits) >= 2 or any(op[0] == 'grecompute' for op in c['gops'])
     fits = [i for i, op in enumerate(c['ops']) if op[0] == 'fit']
-    return 'thr' in o and len(fits) >= 2 and any(op[0].startswith('edit') for op in c['ops'][fits[0]:fits[-1]])
+    return len(fits) >= 2 and any(op[0].startswith(('edit', 'set', 'center')) for op in c['ops'][fits[0]:fits[-1]])
 
 
 def kind_of(c, o):
-    return c['kind'] + ('/err' if 'err' in o else '')
+    k = c['kind']
+    if 'thr' not in c['args']:
+        k += '/default-thr'
+    return k + ('/skip' if 'skip' in o else '/err' if 'err' in o else '')
 
 
 def _dict(d):
     return coqio.lst(['("%s", %s%%Z)' % (k, coqio.Z(v)) for k, v in d.items()]) if d else 'nil'
 
 
+def _opt(x, f):
+    return 'None' if x is None else '(Some %s)' % f(x)
+
+
+def _cargs(a):
+    return ('{| ca_center := %s; ca_amp := %s; ca_bk := %s; ca_thr := %s; ca_fek := %s; ca_rs := %s |}' % (
+        _opt(a.get('center'), coqio.B), _opt(a.get('amp'), coqio.B), _opt(a.get('bk'), _dict), _opt(a.get('thr'), _dict),
+        _opt(a.get('fek'), lambda f: '%d%%Z' % f), _opt(a.get('rs'), coqio.B)))
+
+
+def _coq_obs(o):
+    return '(%s, %s, %s, %s, %d%%Z, %s)' % (_dict(o['thr']), _dict(o['bk']), coqio.B(o['center']), coqio.B(o['amp']), o['fek'],
+                                           coqio.B(o['rs']))
+
+
+_ERR = {'Type': 'EType', 'Value': 'EValue', 'Key': 'EKey', 'Index': 'EIndex'}
+_SHAPE = {'rows': 'G2Rows %d', 'flat': 'G2Flat %d', 'g3': 'G3 %d %d', 'g3ax0': 'G3Ax0 %d %d', 'g3ax1': 'G3Ax1 %d %d'}
+
+
 def coq_case(c, o):
-    if not _valid_reductions(c):
+    if 'skip' in o:
         return None
-    st = '{| st_center := %s; st_amp := %s; st_bk := %s; st_thr := %s; st_fek := %d%%Z; st_rs := %s |}' % (
-        coqio.B(c['center']), coqio.B(c['amp']), _dict(c['bk'] or {}), _dict(c['thr']), c['fek'] or 0, coqio.B(c['rs']))
     ops = []
+    if 'gops' in c:
+        for op in c['gops']:
+            if op[0] == 'gfit':
+                sh = _SHAPE[op[2]] % ((op[3],) if op[4] is None else (op[3], op[4]))
+                ops.append('GFit %d (%s)' % (op[1], sh))
+            elif op[0] == 'grecompute':
+                ops.append('GRecompute %d' % op[1])
+            elif op[0] == 'gedit_thr':
+                ops.append('GEditThr "%s" %d' % (op[1], op[2]))
+            elif op[0] == 'gedit_bk':
+                ops.append('GEditBk "%s" %d' % (op[1], op[2]))
+        inp = '(%s, %s)' % (_cargs(c['args']), coqio.lst(ops) if ops else 'nil')
+        if 'err' in o:
+            return inp, '(Err %s)' % _ERR.get(o['err'], 'EOther')
+        zl = lambda xs: coqio.lst(['%s%%Z' % coqio.Z(x) for x in xs]) if xs else 'nil'
+        bl = lambda xs: coqio.lst([coqio.B(x) for x in xs]) if xs else 'nil'
+        return inp, '(Ok (%s, %s, %s, %s))' % (_coq_obs(o), zl(o['sig_ids']), bl(o['same_obj']), bl(o['current']))
     for op in c['ops']:
         if op[0] == 'fit':
             ops.append('OFit %d' % op[1])
@@ -264,7 +672,15 @@ def coq_case(c, o):
             ops.append('OEditBk "%s" %d' % (op[1], op[2]))
         elif op[0] == 'center':
             ops.append('OSetCenter %s' % coqio.B(op[1]))
-    inp = '(%s, %s)' % (st, coqio.lst(ops))
+        elif op[0] == 'set_thr':
+            ops.append('OSetThr %s' % _dict(op[1]))
+        elif op[0] == 'set_method':
+            ops.extend(['OSetMethod %s' % coqio.B(op[1]), 'OSetThr %s' % _dict(op[2]), 'OSetBk %s' % _dict(op[3])])
+        elif op[0] == 'set_fek':
+            ops.append('OSetFek %d' % op[1])
+        elif op[0] == 'set_rs':
+            ops.append('OSetRs %s' % coqio.B(op[1]))
+    inp = '(%s, %s)' % (_cargs(c['args']), coqio.lst(ops))
     if 'err' in o:
-        return inp, '(Err %s)' % {'Type': 'EType', 'Value': 'EValue', 'Key': 'EKey', 'Index': 'EIndex'}.get(o['err'], 'EOther')
-    return inp, '(Ok (%s, %s, %s))' % (_dict(o['thr']), _dict(o['bk']), coqio.B(o['center']))
+        return inp, '(Err %s)' % _ERR.get(o['err'], 'EOther')
+    return inp, '(Ok %s)' % _coq_obs(o)
